@@ -40,8 +40,11 @@ Definition enum_ok : bool :=
 Definition supported (k : N) : bool :=
   mem k [K_EXECUTIONREPORT; K_ORDERCANCELREJECT; K_ORDERCANCELREQUEST; K_ORDERCANCELREPLACEREQUEST].
 
-(* known-finding class D16: the OrderCancelReject row is one default for every status *)
-Definition kf_cancel_reject (c : cell) : bool := c_kind c =? K_ORDERCANCELREJECT.
+(* known-finding class D16 (what is left of it after the repair of the cancel-reject table): a cancel reject
+   reporting PENDING_NEW moves an acknowledged, unfinished order back to PENDING_NEW (pinned by the test suite) *)
+Definition kf_cancel_reject (c : cell) : bool :=
+  (c_kind c =? K_ORDERCANCELREJECT) && (c_ms c =? PENDING_NEW)
+  && negb (mem (c_st c) [CREATED; PENDING_NEW]) && negb (is_finished (c_st c)).
 
 (* L1  total and closed *)
 Definition law_closed (c : cell) : bool :=
@@ -103,36 +106,32 @@ Proof.
   rewrite forallb_forall in H. specialize (H c Hin). rewrite Hk in H. exact H.
 Qed.
 
-(* ... and fail inside it: a cancel reject moves a FILLED order to NEW, a NEW order back to
-   PENDING_NEW, and a CREATED order to NEW *)
-Lemma absorbing_refuted :
-  exists c, In c cells /\ c_st c = FILLED /\ c_ms c = NEW /\ c_raise c = 1 /\ law_absorbing c = false.
-Proof.
-  exists (mkCell FILLED K_ORDERCANCELREJECT 0 NEW 1 1).
-  repeat split; try reflexivity.
-  assert (H : existsb (fun c => (c_st c =? FILLED) && (c_kind c =? K_ORDERCANCELREJECT) && (c_ex c =? 0)
-                               && (c_ms c =? NEW) && (c_raise c =? 1) && (c_soft c =? 1)) cells = true)
-    by (vm_compute; reflexivity).
-  apply existsb_exists in H. destruct H as [[st k ex ms r s] [Hin Hc]].
-  cbn [c_st c_kind c_ex c_ms c_raise c_soft] in Hc.
-  repeat (apply andb_prop in Hc; destruct Hc as [Hc ?]).
-  repeat match goal with H : (_ =? _) = true |- _ => apply N.eqb_eq in H end. subst. exact Hin.
-Qed.
+(* finished statuses are absorbing and a just-created order accepts only PENDING_NEW / REJECTED: everywhere,
+   the OrderCancelReject kind included (repaired) *)
+Lemma absorbing_everywhere : forall c, In c cells -> law_absorbing c = true.
+Proof. apply forallb_forall. vm_compute. reflexivity. Qed.
 
-Lemma pending_new_refuted : exists c, In c cells /\ law_no_pending_new c = false.
+Lemma created_accepts_everywhere : forall c, In c cells -> law_created_accepts c = true.
+Proof. apply forallb_forall. vm_compute. reflexivity. Qed.
+
+(* ... the remaining failure inside the class: a cancel reject moves a NEW order back to PENDING_NEW *)
+Lemma pending_new_refuted : exists c, In c cells /\ kf_cancel_reject c = true /\ law_no_pending_new c = false.
 Proof.
-  assert (H : existsb (fun c => negb (law_no_pending_new c)) cells = true) by (vm_compute; reflexivity).
+  assert (H : existsb (fun c => kf_cancel_reject c && negb (law_no_pending_new c)) cells = true) by (vm_compute; reflexivity).
   apply existsb_exists in H. destruct H as [c [Hin Hc]]. exists c. split; [exact Hin|].
+  apply andb_prop in Hc. destruct Hc as [Hk Hl]. split; [exact Hk|].
   destruct (law_no_pending_new c); [discriminate | reflexivity].
 Qed.
 
-Lemma created_accepts_refuted : exists c, In c cells /\ law_created_accepts c = false.
+(* the class is exactly where a law fails: every cell of the class violates L4 *)
+Lemma class_is_exact : forall c, In c cells -> kf_cancel_reject c = true -> law_no_pending_new c = false.
 Proof.
-  assert (H : existsb (fun c => negb (law_created_accepts c)) cells = true) by (vm_compute; reflexivity).
-  apply existsb_exists in H. destruct H as [c [Hin Hc]]. exists c. split; [exact Hin|].
-  destruct (law_created_accepts c); [discriminate | reflexivity].
+  intros c Hin Hk.
+  assert (H : forallb (fun c => negb (kf_cancel_reject c) || negb (law_no_pending_new c)) cells = true) by (vm_compute; reflexivity).
+  rewrite forallb_forall in H. specialize (H c Hin). rewrite Hk in H. cbn in H.
+  destruct (law_no_pending_new c); [discriminate | reflexivity].
 Qed.
 
 (* non-vacuity: the complement of the known class is most of the domain *)
-Lemma partial_nonvacuous : Nat.eqb (length (filter (fun c => negb (kf_cancel_reject c)) cells)) 17280 = true.
+Lemma partial_nonvacuous : N.eqb (N.of_nat (length (filter (fun c => negb (kf_cancel_reject c)) cells))) 21420 = true.
 Proof. vm_compute. reflexivity. Qed.
